@@ -130,6 +130,7 @@ class Repo:
         for n in body:
             if isinstance(n, (ast.FunctionDef, ast.AsyncFunctionDef)):
                 qual = prefix + n.name
+                n._module = module
                 fi = FuncInfo(module, qual, n, cls)
                 self.functions[fi.id] = fi
                 if cls is not None and prefix == cls.qual + '.':
@@ -298,7 +299,8 @@ class Repo:
                 f = n.func
                 if nm in self.HIGHER_ORDER:
                     out.append('higher-order call %s(...)' % nm)
-                if isinstance(f, ast.Subscript):
+                if isinstance(f, ast.Subscript) and not (isinstance(f.value, ast.Name) and f.value.id in self.module_tables(fi.module)
+                                                         and all(isinstance(v, ast.Lambda) for v in self.module_tables(fi.module)[f.value.id].values)):
                     out.append('call through a container: %s(...)' % canon(f)[:50])
                 if isinstance(f, ast.Call) and (call_name(f) or '') == 'getattr' and len(f.args) >= 2 and not isinstance(f.args[1], ast.Constant):
                     out.append('call of a computed attribute: %s(...)' % canon(f)[:50])
@@ -306,7 +308,10 @@ class Repo:
                     out.append('call of the result of %s' % call_name(f))
             elif isinstance(n, (ast.Name, ast.Attribute)) and isinstance(getattr(n, 'ctx', None), ast.Load):
                 t = n.id if isinstance(n, ast.Name) else (n.attr if isinstance(n.value, ast.Name) and n.value.id in ('self', 'cls') or (fi.cls is not None and isinstance(n.value, ast.Name) and n.value.id == fi.cls.name) else None)
-                if t in tables:
+                ct = self.class_tables(fi.cls) if (fi.cls is not None and isinstance(n, ast.Attribute)) else {}
+                if t in tables and not (isinstance(n, ast.Name) and t in self.module_tables(fi.module)
+                                        and all(isinstance(v, ast.Lambda) for v in self.module_tables(fi.module)[t].values)) \
+                        and not (t in ct and all(isinstance(v, ast.Lambda) for v in ct[t].values)):
                     out.append('function table %s' % t)
             elif isinstance(n, ast.While) and isinstance(n.test, ast.Constant) and n.test.value is True:
                 pass
@@ -562,6 +567,56 @@ class Repo:
                 continue
         return out
 
+    def module_tables(self, module):
+        """name -> dict display, for names bound exactly once, at module level, to a display whose
+        keys are all constants, and that nothing in the module mutates (no stores / method calls
+        other than get / keys / values / items on the name)"""
+        key = ('mtables', module)
+        if key in self._mro_cache:
+            return self._mro_cache[key]
+        tree = self.modules[module]['tree']
+        out = {}
+        stores = {}
+        for n in ast.walk(tree):
+            if isinstance(n, ast.Name) and isinstance(n.ctx, (ast.Store, ast.Del)):
+                stores[n.id] = stores.get(n.id, 0) + 1
+        for st in tree.body:
+            if isinstance(st, ast.Assign) and len(st.targets) == 1 and isinstance(st.targets[0], ast.Name) and isinstance(st.value, ast.Dict) \
+                    and st.value.keys and all(isinstance(k, ast.Constant) for k in st.value.keys) and stores.get(st.targets[0].id) == 1:
+                out[st.targets[0].id] = st.value
+        for n in ast.walk(tree):
+            if isinstance(n, ast.Subscript) and isinstance(n.value, ast.Name) and n.value.id in out and isinstance(n.ctx, (ast.Store, ast.Del)):
+                out.pop(n.value.id, None)
+            elif isinstance(n, ast.Attribute) and isinstance(n.value, ast.Name) and n.value.id in out and n.attr not in ('get', 'keys', 'values', 'items', '__contains__', '__getitem__'):
+                out.pop(n.value.id, None)
+        self._mro_cache[key] = out
+        return out
+
+    def class_tables(self, ci):
+        """attr -> dict display, for class-level ``attr = {constant keys: ...}`` (through the MRO)
+        that nothing in the package stores or mutates"""
+        key = ('ctables', ci.qual)
+        if key in self._mro_cache:
+            return self._mro_cache[key]
+        out = {}
+        stored = self._stored_attr_names()
+        for c in reversed(self.mro(ci)):
+            for st in c.node.body:
+                if isinstance(st, ast.Assign) and len(st.targets) == 1 and isinstance(st.targets[0], ast.Name) and isinstance(st.value, ast.Dict) \
+                        and st.value.keys and all(isinstance(k, ast.Constant) for k in st.value.keys) and st.targets[0].id not in stored:
+                    out[st.targets[0].id] = st.value
+        mutated = set()
+        for info in self.modules.values():
+            for n in ast.walk(info['tree']):
+                if isinstance(n, ast.Subscript) and isinstance(n.ctx, (ast.Store, ast.Del)) and isinstance(n.value, ast.Attribute) and n.value.attr in out:
+                    mutated.add(n.value.attr)
+                elif isinstance(n, ast.Attribute) and isinstance(n.value, ast.Attribute) and n.value.attr in out and n.attr in ('update', 'pop', 'setdefault', 'clear', 'popitem', '__setitem__'):
+                    mutated.add(n.value.attr)
+        for m in mutated:
+            out.pop(m, None)
+        self._mro_cache[key] = out
+        return out
+
     def module_level_name(self, module, name):
         """is ``name`` bound by an assignment at the top level of the module?"""
         tree = self.modules[module]['tree']
@@ -606,6 +661,8 @@ class Repo:
                 return None
         w = Walker(self.resolver(recv_types), max_paths=max_paths, inline_depth=inline_depth, fold=fold, tag=tag, keep=keep)
         w.class_constant = self.class_constant
+        w.module_tables = self.module_tables
+        w.class_tables = self.class_tables
         w.split_ifexp = split_ifexp
         return w
 
